@@ -106,6 +106,22 @@ def cases(tier, rng):
                "call": {"kill": [b, c]}, "group": "dissolve-nested"}
     for t in range(60 if tier == "quick" else 600):
         yield {"k": 2000, "args": [[t]], "call": {"what": rng.choice(["geo", "geo", "dissolve", "proj"]), "seed": rng.randrange(10**9)}, "group": "float-and-dissolve"}
+    # NaN as the nodata value (about a fifth of the random k = 2001 cases; after the other loops: their case stream is
+    # unchanged): the same integer-cost cases, the implementation is called with float64 observations, NaN where the case has
+    # its nodata value, and nodata = np.nan (guards the repaired defect: `!= nodata` is always true for NaN)
+    for t in range(80 if tier == "quick" else 800):
+        nr, nc = rng.randint(1, mx), rng.randint(2, mx)
+        n = nr * nc
+        nod = rng.choice([0, -1])
+        obs = [(rng.randint(1, 9) if rng.random() < 0.12 else nod) for _ in range(n)]
+        if all(v == nod for v in obs):
+            obs[rng.randrange(n)] = 3
+        hm = rng.randrange(2)
+        msk = [int(rng.random() < 0.8) for _ in range(n)] if hm else []
+        hf = rng.randrange(2)
+        frc = [rng.randint(1, 3) for _ in range(n)] if hf else []
+        yield {"k": 2001, "args": [[nr], [nc], obs, [hm], msk, [nod], [hf], frc, rng.choice([[3, 4, 5], [4, 3, 5]])],
+               "call": {"float_nan": 1}, "group": "rand-int-nan"}
 
 
 def _dijkstra(nr, nc, obs, msk, nodata, cost):
@@ -168,18 +184,30 @@ def impl(case):
     a = case["args"]
     nr, nc, obs, hm, msk, nod, hf, frc, dxy = a[0][0], a[1][0], a[2], a[3][0], a[4], a[5][0], a[6][0], a[7], a[8]
     o = np.array(obs, dtype=np.int32).reshape(nr, nc)
+    fnan = bool((case.get("call") or {}).get("float_nan"))
+    if fnan:                                  # float64 observations, NaN where the case has its nodata value; nodata = NaN
+        o = np.where(o == nod, np.nan, o.astype(np.float64))
     before = o.copy()
     m = np.array(msk, dtype=bool).reshape(nr, nc) if hm else None
     f = np.array(frc, dtype=np.float32).reshape(nr, nc) if hf else None
     tr = Affine(float(dxy[0]), 0.0, 0.0, 0.0, -float(dxy[1]), 0.0)
-    st, v = call_impl(g.spread2d, o, m, nod, f, False, tr)
-    if not np.array_equal(before, o):
+    st, v = call_impl(g.spread2d, o, m, np.nan if fnan else nod, f, False, tr)
+    if not np.array_equal(before, o, equal_nan=fnan):
         return [[-4], ["input mutated"]]
     if st != "ok":
         return [[-2], [st, str(v)[:100]]]
     out, src, dst = v
     if np.any(dst != np.round(dst)) or src.dtype != np.int32 or dst.dtype != np.float32 or out.dtype != o.dtype:
         return [[-3], [str(dst.dtype)]]
+    if fnan:
+        # NaN (still no value) is reported as the case's nodata value; a NaN at a cell that should have been filled then
+        # differs from the model and from the oracle's source value.  Any other non-integer, or the nodata value itself, is an anomaly
+        if out.shape != o.shape or o.dtype != np.float64:
+            return [[-3], [str(out.shape)]]
+        fin = ~np.isnan(out)
+        if np.any(out[fin] != np.round(out[fin])) or np.any(out[fin] == nod) or np.any(np.isnan(out) & ~np.isnan(o)):
+            return [[-3], ["float_nan: unexpected value in out"]]
+        out = np.where(fin, out, float(nod))
     return [[int(x) for x in out.ravel()], [int(x) for x in src.ravel()], [int(x) for x in dst.ravel()]]
 
 
